@@ -19,11 +19,12 @@ NCBK = 15
 CB_SPAWN = 15
 CB_RSPAWN = 16
 SRC = "src/target/firmware/layer1/tdma_sched.c"
+SRC_G = "src/target/firmware/layer1/sched_gsmtime.c"
 
 
 def build_c(ctx):
-    flags = ('-idirafter %s/src/target/firmware/include -I%s/include -I%s/include -DC08_SOURCE=\'"%s"\''
-             % (REPO, LIBOSMO, REPO, os.path.join(REPO, SRC)))
+    flags = ('-idirafter %s/src/target/firmware/include -I%s/include -I%s/include -DC08_SOURCE=\'"%s"\' -DC08G_SOURCE=\'"%s"\''
+             % (REPO, LIBOSMO, REPO, os.path.join(REPO, SRC), os.path.join(REPO, SRC_G)))
     ok, path, log = common.cc("c08", [os.path.join(ROOT, "charness/c08.c")], flags=flags)
     if not ok:
         raise RuntimeError("C08 harness does not compile:\n" + log[-3000:])
@@ -42,6 +43,12 @@ def gen(ctx):
               "P1_BITS", "P2_BITS", "P3_BITS", "PRIO_BITS", "PRIO_SIGNED", "P3_SIGNED"):
         txt += "Definition c_%s : Z := %d.\n" % (k, vals[k])
     ctx.gen("FwSchedConst", txt)
+    txt = common.gen_header("firmware layer1/sched_gsmtime.c + include/layer1/sched_gsmtime.h + errno.h + osmocom/gsm/gsm_utils.h as compiled "
+                            "(charness/c08.c const): event pool size, SCHEDULE_AHEAD / SCHEDULE_LATENCY, EBUSY, GSM_MAX_FN, field widths")
+    for k in ("GSMTIME_NEVENTS", "SCHEDULE_AHEAD", "SCHEDULE_LATENCY", "EBUSY", "GSM_MAX_FN", "GSMTIME_FN_BITS", "GSMTIME_FN_SIGNED",
+              "GSMTIME_P3_BITS"):
+        txt += "Definition c_%s : Z := %d.\n" % (k, vals[k])
+    ctx.gen("FwGsmtimeConst", txt)
     return binp
 
 
